@@ -480,6 +480,14 @@ def main():
             if base == "N.counts":
                 exp = K.counts(c, *args, **kwargs)
                 return exp is None or list(exp) == rec["counts"]
+            if base == "V.result_shape":
+                # "the postcondition can be evaluated on what the call returned": false iff it cannot, here as there
+                try:
+                    K.post(c, r, *args, **kwargs)
+                    return True
+                except Exception as pe:  # noqa
+                    rec["postcondition_not_evaluable"] = "%s: %s" % (type(pe).__name__, str(pe)[:160])
+                    return False
             post = K.post(c, r, *args, **kwargs)
             if clause not in post:
                 return None
